@@ -1,6 +1,7 @@
 import Driver.Ops
 import Driver.VMDrv
 import Driver.Invoke
+import Driver.ModStoreDrv
 open Driver
 
 def dispatch (line : String) : String :=
@@ -8,6 +9,7 @@ def dispatch (line : String) : String :=
   | "ops" :: args => handleOps args
   | "vm" :: args => handleVM args
   | "inv" :: args => handleInv args
+  | "ms" :: args => handleMs args
   | _ => "bad-op"
 
 partial def loop (h : IO.FS.Stream) (out : IO.FS.Stream) : IO Unit := do
